@@ -33,8 +33,8 @@ open_("D24", "C03", "UPDATE of a column of a PRIMARY KEY table fails with 'unexp
 open_("D25", "C03", "after UPDATE, a DELETE followed by a read in the same transaction shows the pre-update version again", "O-res", "history_contains_update", "findings/D25-own-delete-after-update-shows-old-version.json")
 fixed("F1", "C03", "fe2afc8", "INSERT of NULL into a PRIMARY KEY/UNIQUE column failed only after the row was stored: the row stayed and a later committed insert was lost", "O-state", "findings/F1-null-into-unique-column-leaves-row.json")
 fixed("F3", "C03", "daba35a", "with more than three relations (tables + indexes) inserts corrupted catalog rows: 'table not found', panics or process abort (a catalog row replaced by a smaller one moved the page's free space pointer)", "O-res", "findings/F3-many-relations-concurrent-catalog-updates.json")
-open_("D9", "C16", "the 256th version of a table's catalog row (every inserted row adds one) overflows a u8 version counter: panic at storage/tuple.rs:1020 in builds with overflow checks, a worker dies", "O-res", "more_than_32_inserts_per_table", "findings/D9-256th-version-of-a-catalog-row-panics.json")
-open_("D15b", "C07", "after 45-90 inserts into one table (4 KiB pages) the table's catalog row, which keeps a delta per insert, outgrows a page cell: further statements on the table fail with 'Expected overflow frame'", "O-res", "more_than_32_inserts_per_table", "findings/D15b-catalog-row-outgrows-a-page-cell-after-many-inserts.json")
+fixed("D9", "C16", "13832f4", "the 256th version of a table's catalog row (every inserted row added one) overflowed a u8 version counter: panic at storage/tuple.rs:1020 in builds with overflow checks, a worker died", "O-res", "findings/D9-256th-version-of-a-catalog-row-panics.json")
+fixed("D15b", "C07", "13832f4", "after 45-90 inserts into one table (4 KiB pages) the table's catalog row, which kept a delta per insert, outgrew a page cell: further statements on the table failed with 'Expected overflow frame'", "O-res", "findings/D15b-catalog-row-outgrows-a-page-cell-after-many-inserts.json")
 open_("F3b", "C15", "a table with several indexes: the next CREATE UNIQUE INDEX fails with 'Expected overflow frame' (the table's catalog row has outgrown a page cell and needs an overflow page)", "O-res", "more_than_3_relations", "findings/F3b-catalog-row-of-a-table-with-several-indexes-needs-an-overflow-page.json")
 
 # ---- open findings: constraints (C07) ----
@@ -72,6 +72,9 @@ fixed("D18b", "C16", "01e8bb8", "'*' inside an expression, EXISTS, IN (SELECT ..
 fixed("D18a", "C16", "0cd9259", "integer division or modulo by zero panicked (types/core.rs:185/195) and killed the worker", "O-res", "findings/D18a-division-or-modulo-by-zero-panics.json")
 fixed("D18f", "C16", "445d9f5", "an expression nested a few thousand levels deep (NOT NOT ..., parentheses) or a chain of 600+ operators overflowed the stack: the process aborted", "O-live:process-died", "findings/D18f-deeply-nested-expression-overflows-the-stack.json")
 fixed("D35", "C16", "9ded0d1", "INSERT INTO t SELECT * FROM t never returned (the scan saw the rows it inserted)", "O-live:hang", "findings/D35-insert-select-from-same-table-never-returns.json")
+fixed("D35b", "C16", "e7f1954", "INSERT INTO t SELECT * FROM t on a table of more than one leaf never returned: the exhausted source scan kept its last leaf latched and the first insert waited for it", "O-live:hang", "findings/D35b-insert-select-from-same-table-of-several-leaves-never-returns.json")
+fixed("R1", "C02", "e2afc48", "checkpoint, then an unfinished transaction deletes a row of a table with a UNIQUE index, its log records reach the file, crash: open failed with 'UNIQUE constraint violated' (undo re-inserted the row, which was still there unmarked)", "O-open", "findings/R1-undo-of-delete-reinserts-live-row-unique-violation-open-fails.json")
+fixed("R1b", "C02", "e2afc48", "an unfinished transaction deletes a row whose committed INSERT is still in the log, crash: open failed with 'UNIQUE constraint violated' (undo inserted the row, then redo inserted it again)", "O-open", "findings/R1b-undo-of-delete-inserts-row-whose-insert-is-redone.json")
 
 # ---- open findings: plans and indexes (C06) ----
 fixed("J1", "C06", "0093459", "an equi-join lost matching rows when the left input held a NULL in the join column (merge join compared a NULL key as greater than every right key and ran the right input dry)", "O-plan", "findings/J1-equi-join-with-null-join-key-loses-matches.json")
